@@ -37,11 +37,13 @@ def run_case(case, keep=False):
     try:
         shutil.copytree('/repo/src', os.path.join(tmp, 'src'))
         edits = case.get('edits') or [(case['file'], case['old'], case['new'])]
-        for file, old, new in edits:
+        for ed in edits:
+            file, old, new = ed[:3]
+            want = ed[3] if len(ed) > 3 else case.get('count', 1)     # (file, old, new[, occurrences])
             p = os.path.join(tmp, file)
             with open(p) as fh:
                 s = fh.read()
-            if s.count(old) != case.get('count', 1):
+            if s.count(old) != want:
                 return 'BROKEN-CASE', 'pattern occurs %d times in %s' % (s.count(old), file)
             with open(p, 'w') as fh:
                 fh.write(s.replace(old, new))
